@@ -509,7 +509,7 @@ Definition sp_rlp_dec (fx : bool) (a : list (list Z)) : outcome :=
   sp_bytes_arg bs (if lenZ bs <? USIZE then sp_dec (sp_rlp_decode n bs) n (out_limbs (rlp_decode fx n bs)) else Unsupported).
 Definition sp_rlp_dec_item (fx : bool) (a : list (list Z)) : outcome :=
   let n := cv_nat 1 a in let bs := arg 0 a in
-  sp_bytes_arg bs (sp_dec (sp_rlp_decode_item n bs) n (out_limbs (rlp_decode_item fx n bs))).
+  sp_bytes_arg bs (if lenZ bs <? USIZE then sp_dec (sp_rlp_decode_item n bs) n (out_limbs (rlp_decode_item fx n bs)) else Unsupported).
 Definition sp_enc (ok : bool) (a : list (list Z)) (f : Z -> outcome) : outcome :=
   if wfb (arg 0 a) && negb (Nat.eqb (ln 0 a) 0) && ok then f (ev 0 a) else Unsupported.
 
